@@ -82,6 +82,11 @@ static SImg gen_gradient(bool sane) {
       int64_t a = coin(50) ? 65536 : R(20000, 200000);
       g.m = {a, 0, R(-8, 8) * 65536, 0, coin(50) ? a : R(20000, 200000), R(-8, 8) * 65536, 0, 0, 65536};
       g.m[coin(60) ? 7 : 6] = (coin(50) ? 1 : -1) * R(100, 3000);
+      if (coin(40)) {
+        // ... or a pure shear: exactly one off-diagonal entry, no projective part
+        g.m[6] = g.m[7] = 0;
+        g.m[coin(50) ? 1 : 3] = (coin(50) ? 1 : -1) * R(3000, 90000);
+      }
     } else if (tk == 1) g.m = gen_transform(2, 20, 20);
     else if (tk == 2) g.m = gen_transform(4, 20, 20);
     else if (tk == 3) g.m = gen_transform(5, 20, 20);
@@ -99,9 +104,10 @@ static GCase gen_case() {
   c.sy = (int)R(-3, 6);
   c.over = coin(30);
   if (coin(20)) {
-    c.masked = 1;
+    c.masked = coin(35) ? 2 : 1;  // 2: a8r8g8b8 component-alpha mask whose pixels are 0, all ones, or "alpha 0, colour 1"
     c.mseed = seed64();
     c.h = (int)R(1, 6);
+    if (c.masked == 2) c.over = 0;
   }
   if (coin(25)) c.h = (int)R(2, 8);
   SImg &g = c.g;
@@ -135,6 +141,16 @@ static GCase gen_case() {
       g.geom[2] = g.geom[0] + (coin(50) ? 1 : -1) * R(30, 60) * 65536;
     }
     if (g.repeat == 0) g.repeat = (int)R(1, 3);
+    if (coin(35)) {
+      // a gradient less than two pixels long, tens of thousands of pixels away, without periodic repeat: |t| in the
+      // tens of thousands, where the colour is simply the end stop (PAD) or nothing (NONE)
+      g.repeat = coin(50) ? PIXMAN_REPEAT_PAD : PIXMAN_REPEAT_NONE;
+      if (g.kind == 3) g.geom[5] = g.geom[4] + R(20000, 130000);
+      else if (g.kind == 2) {
+        g.geom[2] = g.geom[0] + (coin(50) ? 1 : -1) * R(20000, 130000);
+        g.geom[3] = g.geom[1] + R(-20000, 20000);
+      }
+    }
     break;
   }
   case 3: {
@@ -298,11 +314,30 @@ static Verdict run_case(const GCase &c) {
       }
     }
   std::unique_ptr<Image> mask;
-  if (c.masked) {
+  bool ca_mask = c.masked == 2 && !c.over;
+  if (c.masked && !ca_mask) {
     Bits mb = gen_bits_fixed(fmt_index(PIXMAN_a8), c.w, c.h, c.mseed);
     mb.fill = FILL_RUNS;
     mask = make_image(mb);
     v.label("a8_mask_with_runs");
+  } else if (ca_mask) {
+    Bits mb = gen_bits_fixed(fmt_index(PIXMAN_a8r8g8b8), c.w, c.h, c.mseed);
+    mb.fill = FILL_ZERO;
+    mask = make_image(mb);
+    Mix mmx(c.mseed);
+    int run = 0;
+    uint32_t val = 0;
+    for (int y = 0; y < c.h; y++)
+      for (int x = 0; x < c.w; x++) {
+        if (run == 0) {
+          run = mmx.range(1, 6);
+          val = (uint32_t[]){0u, 0xffffffffu, 0x00ffffffu, 0x00ffffffu}[mmx.range(0, 3)];
+        }
+        run--;
+        raw_put(mask->rowp(y), 32, x, val);
+      }
+    pixman_image_set_component_alpha(mask->im, 1);
+    v.label("component_alpha_mask");
   }
   pixman_image_composite32(c.over ? PIXMAN_OP_OVER : PIXMAN_OP_SRC, src.im, mask ? mask->im : nullptr, dst->im, c.sx, c.sy, 0, 0, 0, 0, c.w, c.h);
   if (c.over) v.label("op_over");
@@ -401,7 +436,17 @@ static Verdict run_case(const GCase &c) {
         gv[3] = got & 0xff;
       }
       const real *bf = &before[((size_t)y * c.w + x) * 4];
-      if (mask) {
+      bool ca_colour_only = false;
+      if (mask && ca_mask) {
+        uint32_t mv = raw_get(mask->rowp(y), 32, x);
+        if (mv == 0) {
+          for (int k = 0; k < 4; k++)
+            if (fabsl(gv[k]) > 1e-3L) v.fail(fmt("pixel (%d,%d) is masked out (component alpha 0) but channel %d is %.3Lf", x, y, k, gv[k]));
+          checked++;
+          continue;
+        }
+        ca_colour_only = mv == 0x00ffffffu;  // SRC: alpha channel times 0, colour channels times 1
+      } else if (mask) {
         uint32_t mv = raw_get(mask->rowp(y), 8, x);
         if (mv == 0) {
           // masked out: SRC writes transparent black, OVER leaves the destination alone
@@ -429,6 +474,12 @@ static Verdict run_case(const GCase &c) {
         continue;
       }
       // the parameter itself is carried in 16.16 and evaluated in single precision: allow a relative error as well
+      // far outside [0,1] a gradient without periodic repeat is constant (the end stop under PAD, transparent under NONE):
+      // no precision question arises however large |t| is
+      if ((g.repeat == PIXMAN_REPEAT_NONE || g.repeat == PIXMAN_REPEAT_PAD) && (tlo > 1 + 1e-3L * (1 + fabsl(thi)) || thi < -1e-3L * (1 + fabsl(tlo)))) {
+        tlo = thi = tlo > 1 ? 2 : -1;
+        v.label("constant_zone_beyond_the_stops");
+      }
       real slack = 4.0L / 65536 + (thi - tlo) + 2e-5L * std::max(fabsl(tlo), fabsl(thi));
       if (thi - tlo > 0.02L || std::max(fabsl(tlo), fabsl(thi)) > 1000) {  // (beyond |t| ~ 1000 the single-precision walker cannot resolve narrow stop intervals)
         skipped++;  // seam of a conical gradient / ill-conditioned radial root
@@ -492,6 +543,7 @@ static Verdict run_case(const GCase &c) {
       // a colour channel is the product of two such interpolants (alpha and the non-premultiplied colour): twice the
       // single-precision term
       real tolc = tol + cond * 255 * 4.8e-7L;
+      if (ca_colour_only) lo[0] = hi[0] = 0;  // (the colour channels are those of the unmasked gradient)
       for (int k = 0; k < 4 && v.ok; k++)
         if (gv[k] < lo[k] - (k ? tolc : tol) || gv[k] > hi[k] + (k ? tolc : tol))
           v.fail(fmt("%s gradient repeat %d pixel (%d,%d): channel %d is %.2Lf, reference over t in [%.6Lf,%.6Lf] is [%.2Lf,%.2Lf] (%s destination)", g.kind == 2 ? "linear" : g.kind == 3 ? "radial" : "conical",
